@@ -8,7 +8,7 @@ if args and args[0] == '--scratch':
     scratch = args[1]; args = args[2:]
 os.makedirs(scratch, exist_ok=True)
 def sh(cmd, **kw):
-    return subprocess.run(cmd, shell=True, capture_output=True, text=True, **kw)
+    return subprocess.run(cmd, shell=True, capture_output=True, text=True, errors='replace', **kw)
 def sync():
     sh(f"rsync -a --delete --exclude target --exclude .git /repo/ {scratch}/repo/")
     sh(f"rsync -a --delete --exclude target /verif/harness/ {scratch}/harness/")
@@ -31,7 +31,7 @@ for a in args:
     else:
         for id in ids.split(','):
             t0 = time.time()
-            r = subprocess.run([f"{scratch}/target/release/n2check", "run", id, "quick"], capture_output=True, text=True, env=env)
+            r = subprocess.run([f"{scratch}/target/release/n2check", "run", id, "quick"], capture_output=True, text=True, errors='replace', env=env)
             nv = r.stdout.count('VIOLATION')
             first = next((l for l in r.stderr.splitlines() if l.startswith('violated:')), '')[:200]
             print(f"{name:34s} {id} rc={r.returncode} viol={nv} {time.time()-t0:.0f}s {first}", flush=True)
